@@ -307,7 +307,7 @@ func ruleCCITTLookahead(c *core.Ctx, rule string) {
 				})
 			}
 		}
-		o.Require(len(tested) >= 3, "only %d Reader fields are tested by decoding functions", len(tested))
+		o.Shape(len(tested) >= 3, "only %d Reader fields are tested by decoding functions", len(tested))
 		// stores of peekBits
 		stores := 0
 		ast.Inspect(peek.Decl.Body, func(n ast.Node) bool {
